@@ -2,6 +2,6 @@
 # Regression of the false alarms corrected in DESIGN 8.3: every one of these property-preserving patches must be free of
 # VIOLATIONs (exit 0 or 2 per check).  usage: tools/harmless_regress.sh      (about 30-40 min; HARM_PAR=n to run n side by side)
 cd "$(dirname "$0")/.."
-python3 tools/harmless_eval.py seeded/harmless s1_1 s1_6 s2_1 s2_2 s5_1 s5_3 s5_7 s6_4 s7_5 s7_6 s8_1 s8_3 s11_6 s12_6 s13_3 s15_8 s16_1 | tee work/harmless_regress.log
+python3 tools/harmless_eval.py seeded/harmless s1_1 s1_6 s2_1 s2_2 s5_1 s5_3 s5_7 s6_4 s7_5 s7_6 s8_1 s8_3 s11_6 s12_6 s13_3 s14_2 s15_8 s16_1 | tee work/harmless_regress.log
 if grep -q "': 1" work/harmless_regress.log; then echo "FALSE ALARM(S) above"; exit 1; fi
 echo "no false alarm"
